@@ -41,6 +41,12 @@ func (rc *rootedChecker) compute(v ssa.Value) bool {
 		return true
 	}
 	switch x := v.(type) {
+	case *ssa.Extract:
+		// a root opened through a rooted root is confined to a sub-tree of it
+		if c, ok := x.Tuple.(*ssa.Call); ok && x.Index == 0 && calleeName(c) == "(*os.Root).OpenRoot" {
+			return rc.ok(c.Common().Args[0])
+		}
+		return false
 	case *ssa.Phi:
 		for _, e := range x.Edges {
 			if !rc.ok(e) {
